@@ -145,3 +145,39 @@ package biscuit
 //@ loop 2 invariant true
 //@ ensures err == nil ==> res != nil && fresh(res)
 //@ ensures err != nil ==> res == nil
+
+// ---------------------------------------------------------------------------
+// signature chain verification (C01)
+
+//@ func (b *Biscuit) authorizerFor(root ed25519.PublicKey, opts []AuthorizerOption) (res Authorizer, err error)
+//@ serves C01 C09 C10 C19
+//@ requires wfToken(b) && len(root) == 32
+//@ requires forall j int :: { opts[j] } 0 <= j && j < len(opts) ==> opts[j] != nil
+//@ modifies nothing
+//@ loop 0 invariant len(currentKey) == 32 && bview(currentKey) == keyBefore(b.container, #i)
+//@ loop 0 invariant forall j int :: { b.container.Blocks[j] } 0 <= j && j < #i ==> link(keyBefore(b.container, j), b.container.Blocks[j])
+//@ loop 0 invariant link(bview(root), b.container.Authority)
+//@ ensures no_authorizer_on_error: err != nil ==> res == nil
+//@ ensures accept_implies_chain[C01 C09]: err == nil ==> chainOK(b.container, bview(root)) && proofOK(b.container)
+//@ ensures chain_implies_accept[C01 C09]: chainOK(b.container, bview(root)) && proofOK(b.container) ==> err == nil && res != nil
+
+//@ func NewVerifier(b *Biscuit, opts []AuthorizerOption) (res Authorizer, err error)
+//@ serves C01 C10 C11 C13
+//@ requires forall j int :: { opts[j] } 0 <= j && j < len(opts) ==> opts[j] != nil
+//@ modifies nothing
+//@ loop 0 invariant a != nil && fresh(a) && a.baseSymbols != nil && a.baseWorld != nil && a.baseWorld.facts != nil && a.biscuit == b
+//@ ensures err == nil && res != nil
+
+// Options are functions over the unexported *authorizer: only this package can
+// define them, and each one is verified against this contract.
+//@ functype AuthorizerOption(w *authorizer)
+//@ serves C01 C10 C11 C13
+//@ requires w != nil && w.baseSymbols != nil
+//@ modifies w.baseWorld
+//@ ensures w.baseWorld != nil && w.baseWorld.facts != nil && len(*w.baseWorld.facts) == 0 && len(w.baseWorld.rules) == 0 && fresh(w.baseWorld)
+
+//@ func WithWorldOptions$1(a *authorizer)
+//@ serves C10 C11
+//@ assumes forall j int :: { opts[j] } 0 <= j && j < len(opts) ==> opts[j] != nil
+//@ requires a != nil
+//@ modifies a.baseWorld
